@@ -1150,7 +1150,8 @@ func (vc *VC) pureMethodTerms(st *State, m *types.Func, recv Term, args []Term) 
 		vc.sc.DeclFun(f, sorts, vc.sortOf(rt))
 		r := sx(f, all...)
 		if vc.sortOf(rt) == "Slice" {
-			vc.sc.Assume(st.reach, And(sx("<=", "0", sx("s-len", r)), sx("<=", sx("s-len", r), sx("s-cap", r)), sx("<", sx("birth", sx("root", vc.sptr(r))), st.clk)))
+			vc.sc.Assume(st.reach, And(sx("<=", "0", sx("s-len", r)), sx("<=", sx("s-len", r), sx("s-cap", r)), sx("<", sx("birth", sx("root", vc.sptr(r))), st.clk),
+				Ite(Eq(vc.sptr(r), "nilref"), Eq(sx("s-len", r), "0"), Eq(sx("okind", sx("root", vc.sptr(r))), "1"))))
 		}
 		res = append(res, r)
 	}
